@@ -35,7 +35,7 @@ CLAIMED = {
    text="processRPC decided on a real Node (harness transport/proxy through the real interfaces): for an ARBITRARY uint32 state and each command kind, unless Babbling (or Suspended+Sync) the response is an error and the node digest is unchanged; suspended sync is answered and read-only. processSyncRequest with symbolic Known map entries and both limits symbolic returns exactly the unknown events in topological order, truncated to the smaller limit. checkSuspend with symbolic counts (abstract lengths) suspends iff over limit x validators or evicted.",
    note="Concurrent gossip routines overshooting the limit and the submit-channel goroutine are concurrency (A4) and outside."+COMMON_NOTE, design="6/C17"),
  "C01": dict(
-   text="Lemma-level claim (the single steps the hashgraph consistency argument uses, each decided on the real code from ARBITRARY symbolic event coordinates, n = 1..4/5 validators): _stronglySee <=> more than 2n/3 validators in between and only members counted; _round increments iff a supermajority of parent-round witnesses is strongly seen; _witness <=> member of the round's set and first event of the round; DecideFame's vote rule with symbolic first-round votes and every admissible strongly-seen set (n = 1..5, thorough 6): decision iff supermajority, UNANIMITY of all round-2 witnesses after a decision (both iteration orders); WitnessesDecided sticky/supermajority rule with symbolic n; the consensus order key is a strict total order on (Lamport timestamp, signature) independent of local fields and claimed wall-clock; frame/block timestamp from famous witnesses only.",
+   text="Lemma-level claim (the single steps the hashgraph consistency argument uses, each decided on the real code from ARBITRARY symbolic event coordinates, n = 1..4/5 validators): _stronglySee <=> more than 2n/3 validators in between and only members counted; _round increments iff a supermajority of parent-round witnesses is strongly seen; _witness <=> member of the round's set and first event of the round; DecideFame's vote rule with symbolic first-round votes and every admissible strongly-seen set (n = 1..5, thorough 6): decision iff supermajority, UNANIMITY of all round-2 witnesses after a decision (both iteration orders); WitnessesDecided sticky/supermajority rule with symbolic n; the consensus order key is a strict total order on (Lamport timestamp, signature) independent of local fields and claimed wall-clock; frame/block timestamp from famous witnesses only. Plus one SYSTEM-LEVEL bounded obligation: three real cores gossiping along a fixed pull pattern with any 2 (thorough 3) exchanges dropped or truncated (symbolic schedule bits, 289 / 9121 schedules): pairwise prefix-consistency of delivered blocks after every exchange.",
    note="The composition of these lemmas into agreement over all gossip schedules is the published hashgraph argument and is NOT checked: no SMT encoding of multi-node executions is within reach. Coin rounds (diff multiple of 4) and DecideRoundReceived are not yet covered; n > 6 outside."+COMMON_NOTE, design="6/C01"),
  "C02": dict(
    text="ProcessDecidedRounds on the real code from an arbitrary pending queue (1..3 rounds, thorough 4, symbolic Decided flags, frames empty / payload-free / with transactions, symbolic last block index, commit callback failing at any position): exactly the payload rounds of the maximal decided prefix are delivered, with consecutive indexes and increasing round-received, processed rounds and only they leave the queue, a second pass delivers nothing; the queue stays sorted and duplicate-free for symbolic round numbers; LastBlockIndex never moves backwards for a symbolic stored index.",
